@@ -156,36 +156,71 @@ def add_remove_agreement(ctx):
               'unsubscribing a module leaves its module:parameter subscriptions active', unsub)
 
 
+def _listener_unit(m):
+    """the function that collects the listeners of an event: broadcast_event itself or a helper method it calls"""
+    f = m.method(D, 'broadcast_event', inherited=False)
+    units = [f] + [h for site, h in helper_methods_called(m, f)]
+    for u in units:
+        t = src(u.node, 5000)
+        if '_subscriptions' in t and '_active_connections' in t:
+            return f, u
+    raise AnchorMissing('collection of the listeners (_subscriptions / _active_connections) not found in broadcast_event')
+
+
 @rule('C08.R4', min_instances=3)
 def listener_sources(ctx):
-    """broadcast_event: listeners = copy of param subscribers + module subscribers + active connections"""
+    """broadcast_event: the listeners of an event are the subscribers of module:param, the subscribers of the module and the
+    globally activated connections - merged into a FRESH set (an in-place merge into the stored subscription set would make
+    everybody a permanent subscriber of that parameter)"""
     m = ctx.m
-    f = m.method(D, 'broadcast_event', inherited=False)
+    f, u = _listener_unit(m)
     ctx.analysed(f)
-    loops = [n for n in body_walk(f.node) if isinstance(n, ast.For) and any(call_attr(c) == 'send_reply' for c in calls_in(n))]
-    if not loops:
+    ctx.analysed(u)
+    sends = [n for n in body_walk(f.node) if isinstance(n, ast.For) and any(call_attr(c) == 'send_reply' for c in calls_in(n))]
+    if not sends:
         raise AnchorMissing('send loop in broadcast_event not found')
-    lname = src(loops[0].iter)
-    upd = [c for c in calls_in(f.node) if call_attr(c) in ('update', 'union') and isinstance(c.func, ast.Attribute) and src(c.func.value) == lname]
-    text = ' '.join(src(c, 400) for c in upd)
-    assigns = [n for n in body_walk(f.node) if isinstance(n, ast.Assign) and src(n.targets[0]) == lname and '_subscriptions' in src(n.value)]
-    text_all = text + ' ' + ' '.join(src(a.value, 400) for a in assigns)
-    ctx.check('msg[1]' in text_all and '_subscriptions' in text_all, f'{f.qualname}:parameter subscribers', f.node,
-              'subscribers of module:param are listeners', 'subscribers of the event name are not selected', f)
-    modvars = [n.targets[0].id for n in body_walk(f.node) if isinstance(n, ast.Assign) and isinstance(n.targets[0], ast.Name)
-               and 'msg[1]' in src(n.value) and 'split' in src(n.value)]
-    ctx.check(any(f'get({v}' in text_all for v in modvars), f'{f.qualname}:module subscribers', f.node,
-              'subscribers of the module are listeners', 'subscribers of the whole module are not selected', f)
-    ctx.check('_active_connections' in text, f'{f.qualname}:active connections', f.node,
-              'globally activated connections are listeners', 'globally activated connections are not selected', f)
-    for a in assigns:
-        v = a.value
-        fresh = isinstance(v, ast.Call) and (call_attr(v) == 'copy' or dotted(v.func) in ('set', 'list'))
-        ctx.check(fresh, f'{f.qualname}:listeners is a fresh copy', a,
-                  'the subscription set is copied before other listeners are merged in',
-                  'the stored subscription set itself is extended with the other listeners: after one broadcast the '
-                  'parameter subscription permanently contains module subscribers and active connections, which keep '
-                  'receiving updates after their deactivate', f)
+    # the local that holds the listeners in the unit: what is returned (helper) / iterated by the send loop (broadcast_event)
+    if u is f:
+        lnames = {x.id for x in ast.walk(sends[0].iter) if isinstance(x, ast.Name)}
+    else:
+        lnames = {x.id for r in body_walk(u.node) if isinstance(r, ast.Return) and r.value is not None for x in ast.walk(r.value) if isinstance(x, ast.Name)}
+    lnames = {n for n in lnames if any(how in ('assign', 'aug') for v, st, how in local_assigns(u.node, n))}
+    if not lnames:
+        ctx.undecided(f'{u.qualname}:listeners is a fresh copy', u.node, 'the local holding the listeners was not recognised', u)
+        return
+    parts = []      # every expression merged into the listeners
+    inplace = []
+    for n in body_walk(u.node):
+        if isinstance(n, ast.Assign) and isinstance(n.targets[0], ast.Name) and n.targets[0].id in lnames:
+            parts.append(n.value)
+        if isinstance(n, ast.AugAssign) and isinstance(n.target, ast.Name) and n.target.id in lnames:
+            parts.append(n.value)
+            inplace.append(n)
+        if isinstance(n, ast.Call) and call_attr(n) in ('update', 'add', 'union') and isinstance(n.func.value, ast.Name) and n.func.value.id in lnames:
+            parts += list(n.args)
+            if call_attr(n) != 'union':
+                inplace.append(n)
+    text = ' '.join(src(resolved(x, u.node), 600) for x in parts)
+    ev = 'msg[1]' if u is f else (u.node.args.args[1].arg if len(u.node.args.args) > 1 else 'eventname')
+    has_param = '_subscriptions' in text and any(src(a0) == ev for c in ast.walk(ast.Module(body=[ast.Expr(value=resolved(x, u.node)) for x in parts], type_ignores=[]))
+                                                 if isinstance(c, ast.Call) and c.args for a0 in c.args[:1])
+    ctx.check(has_param, f'{f.qualname}:parameter subscribers', u.node, 'subscribers of module:param are listeners', 'subscribers of the event name are not selected', u)
+    has_mod = "split(':'" in text or "partition(':'" in text
+    ctx.check(has_mod and '_subscriptions' in text, f'{f.qualname}:module subscribers', u.node,
+              'subscribers of the module are listeners', 'subscribers of the whole module are not selected', u)
+    ctx.check('_active_connections' in text, f'{f.qualname}:active connections', u.node,
+              'globally activated connections are listeners', 'globally activated connections are not selected', u)
+    # freshness of every definition of the listeners local
+    for n in body_walk(u.node):
+        if isinstance(n, ast.Assign) and isinstance(n.targets[0], ast.Name) and n.targets[0].id in lnames and '_subscriptions' in src(resolved(n.value, u.node)):
+            v = n.value
+            fresh = (isinstance(v, ast.Call) and (call_attr(v) in ('copy', 'union') or dotted(v.func) in ('set', 'list', 'frozenset'))) or \
+                (isinstance(v, ast.BinOp) and isinstance(v.op, ast.BitOr))
+            ctx.check(fresh or not inplace, f'{f.qualname}:listeners is a fresh copy', n,
+                      'the subscription set is copied before other listeners are merged in',
+                      f'`{src(n)}` takes the stored subscription set itself and `{src(inplace[0]) if inplace else ""}` then extends it in place: after one broadcast the '
+                      'parameter subscription permanently contains module subscribers and active connections, which keep '
+                      'receiving updates after their deactivate', u)
 
 
 @rule('C08.R5', min_instances=2)
@@ -286,6 +321,10 @@ def _ends_with_separator(expr):
         return isinstance(expr.right, ast.Constant) and isinstance(expr.right.value, str) and expr.right.value.endswith(':')
     if isinstance(expr, ast.Constant) and isinstance(expr.value, str):
         return expr.value.endswith(':')
+    if isinstance(expr, ast.Constant) and expr.value is None:
+        return True       # `prefix = None if ':' in name else f'{name}:'` - None is "no prefix" (tested before it is used)
+    if isinstance(expr, ast.IfExp):
+        return _ends_with_separator(expr.body) and _ends_with_separator(expr.orelse)
     return False
 
 
@@ -462,7 +501,7 @@ def scope_refusals_have_the_right_polarity(ctx):
                       '(de)activation no longer match the request', f)
 
 
-@rule('C08.R3f', min_instances=2)
+@rule('C08.R3f', min_instances=1)
 def unsubscribe_removes_exactly_the_scope(ctx):
     """unsubscribe(conn, name): the connection is discarded from the entry of exactly `name`, and - only when `name` is a
     module (no ':' in it) - from the entries `name:<parameter>`; with the polarity of both tests"""
@@ -484,6 +523,16 @@ def unsubscribe_removes_exactly_the_scope(ctx):
                 if r == 'self._subscriptions' and l == ev:
                     side = 'T' if op == 'in' else 'F'
                     ok = ok and all(ids <= cfg.reach([i], labels={side}, avoid=[i]) for i in tn)
+    if not exact:
+        # one loop over all entries with `key == name or key.startswith(prefix)`: the discard is selected by a disjunction, which
+        # the side analysis does not split - the exact-key part is present, the rest is not decided
+        loopdisc = [c for c in calls_in(f.node) if call_attr(c) in ('discard', 'remove') and
+                    any(isinstance(a, ast.For) and '_subscriptions' in src(a.iter) for a in ancestors(c))]
+        eq = [x for c in loopdisc for a in ancestors(c) if isinstance(a, ast.If) for x in ast.walk(a.test)
+              if isinstance(x, ast.Compare) and len(x.ops) == 1 and isinstance(x.ops[0], ast.Eq) and ev in (src(x.left), src(x.comparators[0]))]
+        if eq:
+            ctx.undecided(f'{f.qualname}:the entry of the name itself is discarded', f.node, f'one sweep selecting `{src(eq[0])}` or the prefix: not split into cases', f)
+            return
     ctx.check(ok, f'{f.qualname}:the entry of the name itself is discarded', f.node, f'self._subscriptions[{ev}].discard(conn) when the key exists',
               'the connection is not discarded from the entry of the deactivated name itself (or only when the key is absent): after `deactivate mod:par` '
               'the updates of mod:par keep coming', f)
@@ -514,16 +563,26 @@ def listeners_by_module_name(ctx):
     """broadcast_event: the module subscribers are looked up under the part of the specifier BEFORE the ':' and the
     all-connections list is used only for `reallyall`"""
     m = ctx.m
-    f = m.method(D, 'broadcast_event', inherited=False)
+    f, u = _listener_unit(m)
     ctx.analysed(f)
+    ctx.analysed(u)
     cfg = CFG(f.node, m, f.module)
-    keys = [n for n in body_walk(f.node) if isinstance(n, ast.Subscript) and isinstance(n.value, ast.Call) and call_attr(n.value) == 'split'
+    keys = [n for n in body_walk(u.node) if isinstance(n, ast.Subscript) and isinstance(n.value, ast.Call) and call_attr(n.value) == 'split'
             and "':'" in src(n.value)]
+    keys += [n for n in body_walk(u.node) if isinstance(n, ast.Subscript) and isinstance(n.value, ast.Call) and call_attr(n.value) == 'partition'
+             and "':'" in src(n.value)]
     for k in keys:
         ctx.check(isinstance(k.slice, ast.Constant) and k.slice.value == 0, f'{f.qualname}:module key is the part before the colon', k, f'`{src(k)}`',
                   f'`{src(k)}` takes the parameter part: module-wide activations never match an update', f)
     if not keys:
         ctx.undecided(f'{f.qualname}:module key is the part before the colon', f.node, 'split of the specifier not found', f)
+    # `for conn in self._connections if reallyall else <listeners>`: the conditional expression form
+    for ie in [x for x in body_walk(f.node) if isinstance(x, ast.IfExp) and src(x.test).replace('not ', '') == 'reallyall']:
+        neg = src(ie.test).startswith('not ')
+        yes, no = (ie.orelse, ie.body) if neg else (ie.body, ie.orelse)
+        ctx.check('self._connections' in src(yes) and 'self._connections' not in src(no), f'{f.qualname}:all connections only for reallyall', ie,
+                  'self._connections is used on the reallyall side only',
+                  'ordinary updates go to every connection (activated or not) / reallyall messages only to subscribers', f)
     tests = [t for t in cfg.nodes if t.kind == 'test' and src(t.ast).replace('not ', '') == 'reallyall']
     for t in tests:
         neg = src(t.ast).startswith('not ')
